@@ -244,4 +244,14 @@ example :
   intro b hb
   simp at hb
 
+/-- DHCPv6 with a toy decoder (accept ≥ 4 bytes): the sender — a non-UDP address, a
+`*net.UDPAddr` without IP — reaches the handler untouched; the 1-byte datagram is skipped. -/
+example :
+    let dec6 : Bytes → Option Bytes := fun b => if b.length ≥ 4 then some b else none
+    let o := serve6 dec6 [.datagram [1, 0, 0, 1] (.other 3), .datagram [1] .nilAddr,
+      .datagram [3, 0, 0, 2, 0] (.udp none 546 []), .readError]
+    o.invocations.map (fun v => (v.idx, v.msg, v.peer)) =
+      [(0, [1, 0, 0, 1], .other 3), (2, [3, 0, 0, 2, 0], .udp none 546 [])] ∧ o.exit = .returned := by
+  decide
+
 end Dhcp.Server
